@@ -142,6 +142,31 @@ def run(ctx):
         ctx.case({"star_reset": (na, nb)}, True)
         n_pairs += 1
     ctx.extra["star_reset_after_query_pairs"] = n_pairs
+    # a REJECTED update must leave no trace: rejected add under a fresh regex, accepted adds under other regexes, then an accepted add
+    # under the first regex (its place in the scan order is that of its first ACCEPTED insertion)
+    cfg_of = dict(fr.CFG_ALPHABET)
+    n_rej = 0
+    for r1, r2 in itertools.permutations(fr.REGEXES[:6], 2):
+        if ctx.left() < 45:
+            break
+        if ctx.tier == "quick" and (hash((r1, r2, ctx.seed)) % 2):
+            continue
+        op = rng.choice(["FULLY_CONNECTED", "CONV_2D", "ADD"])
+        rejected = rng.choice([
+            {"k": "add", "regex": r1, "operation": op, "cfg": cfg_of[rng.choice(["bad_asym_w", "bad_a16asym"])], "alg": "min_max_uniform_quantize"},
+            {"k": "add", "regex": r1, "operation": op, "cfg": cfg_of["ctor_bad"], "alg": "min_max_uniform_quantize"},
+            {"k": "add", "regex": r1, "operation": "CUSTOM_OP", "cfg": cfg_of["wo8"], "alg": "min_max_uniform_quantize"},
+            {"k": "add", "regex": r1, "operation": op, "cfg": cfg_of["wo8"], "alg": "bogus_alg"}])
+        mid = {"k": "add", "regex": r2, "operation": rng.choice(["*", op]), "cfg": cfg_of[rng.choice(["wo8", "drq8", "srq88"])], "alg": "min_max_uniform_quantize"}
+        last = {"k": "add", "regex": r1, "operation": rng.choice(["*", op]), "cfg": cfg_of[rng.choice(["wo4a", "drq4", "srq168"])], "alg": "min_max_uniform_quantize"}
+        cmds = history([rejected, mid, last], rng if n_rej % 2 else None)
+        routs, _ = fr.run_history(ctx, drv, cmds)
+        oracle(ctx, cmds, routs)
+        check_fresh(ctx, cmds, routs)
+        ctx.case({"rejected_then_reused": (r1, r2, rejected["operation"], rejected["alg"])}, True)
+        ctx.tag("rejected_then_reused")
+        n_rej += 1
+    ctx.extra["rejected_then_reused_histories"] = n_rej
     # sampled longer histories over the full alphabet
     n = 150 if ctx.tier == "quick" else 3000
     for i in range(n):
